@@ -115,7 +115,13 @@ func (s *Solver) Check(assertions []*Term, vars []*Term) (Result, map[string]uin
 		sb.WriteString("(assert " + a.Ref() + ")\n")
 	}
 	sb.WriteString("(check-sat)\n")
+	tq := time.Now()
 	s.send(sb.String())
+	defer func() {
+		if s.Log != nil {
+			fmt.Fprintf(s.Log, "; ^ query %d took %v\n", s.Queries, time.Since(tq))
+		}
+	}()
 	var res Result
 	nerr := len(s.Errors)
 	for {
